@@ -968,11 +968,12 @@ theorem eff_tokenS {s s' : St} (h : Inv s) {v w tmp : Nat} (hv : v < s.n) (hw : 
 /-! ### join -/
 
 theorem eff_joinLoop {v sep : Nat} : ∀ (toks : List (List Byte)) {s s' : St}, Inv s → v < s.n →
-    joinLoop s v sep toks = some s' → ∃ val, Eff s s' v val
+    joinLoop s v sep toks = some s' → Eff s s' v (absVar s v ++ Spec.joinL sep toks)
   | [], s, s', h, _, e => by
-    simp only [joinLoop, Option.some.injEq] at e; subst e; exact ⟨_, Eff.refl h v⟩
+    simp only [joinLoop, Option.some.injEq] at e; subst e
+    exact (Eff.refl h v).val_eq (by simp [Spec.joinL])
   | [t], s, s', h, hv, e => by
-    simp only [joinLoop] at e; exact ⟨_, eff_appendP h hv e⟩
+    simp only [joinLoop] at e; exact eff_appendP h hv e
   | t :: t2 :: rest, s, s', h, hv, e => by
     simp only [joinLoop, Option.bind_eq_bind, Option.bind_eq_some_iff] at e
     obtain ⟨s1, h1, s2, h2, e⟩ := e
@@ -980,16 +981,19 @@ theorem eff_joinLoop {v sep : Nat} : ∀ (toks : List (List Byte)) {s s' : St}, 
     have hv1 : v < s1.n := by rw [E1.n]; exact hv
     have E2 := eff_appendC E1.inv hv1 h2
     have hv2 : v < s2.n := by rw [E2.n]; exact hv1
-    obtain ⟨val, E3⟩ := eff_joinLoop (t2 :: rest) E2.inv hv2 e
-    exact ⟨val, (E1.trans E2).trans E3⟩
+    have E3 := eff_joinLoop (t2 :: rest) E2.inv hv2 e
+    refine ((E1.trans E2).trans E3).val_eq ?_
+    rw [E2.self, E1.self]
+    simp [Spec.joinL]
 
 theorem eff_join {s s' : St} (h : Inv s) {v : Nat} (hv : v < s.n) {toks : List (List Byte)} {sep : Nat}
-    (e : join s v toks sep = some s') : ∃ val, Eff s s' v val := by
+    (e : join s v toks sep = some s') : Eff s s' v (Spec.joinL sep toks) := by
   simp only [join, Option.bind_eq_bind, Option.bind_eq_some_iff] at e
   obtain ⟨s1, h1, e⟩ := e
   have E1 := eff_clear h hv h1
-  obtain ⟨val, E2⟩ := eff_joinLoop toks E1.inv (by rw [E1.n]; exact hv) e
-  exact ⟨val, E1.trans E2⟩
+  have E2 := eff_joinLoop toks E1.inv (by rw [E1.n]; exact hv) e
+  refine (E1.trans E2).val_eq ?_
+  rw [E1.self]; rfl
 
 /-! ### replace(needle, replacement) -/
 
